@@ -6,6 +6,7 @@ From Coq Require Import List Arith Bool Lia QArith Reals Lra ZArith.
 From NV Require Import Scalar.Ops Model.Common Model.Basis Model.Geom2D Model.Voxel
   Proofs.Boehm Proofs.BasisR Proofs.Geom2DR Proofs.VoxelR.
 From NV Require Import Proofs.HullContains.
+From NV Require Import Proofs.WindingConvex.
 Import ListNotations.
 Open Scope R_scope.
 
@@ -189,3 +190,53 @@ Print Assumptions C20_hull_contains_all_points.
 Theorem C20_hull_contains_all_points_full_refuted : ~ C20_hull_contains_all_points_full.
 Proof. exact hull_contains_without_dimension_refuted. Qed.
 Print Assumptions C20_hull_contains_all_points_full_refuted.
+
+(* ====================== round 2 (Proofs/WindingConvex.v): winding test on strictly convex polygons and triangles ====================== *)
+Open Scope R_scope.
+(* [G] winding test on strictly convex polygons given counter-clockwise (closed pts = pts ++ [pts_0], what wn_poly expects):
+   strictly_convex_ccw pts := 3 <= n /\ every vertex other than the end points of an edge is strictly left of that edge;
+   off_boundary_list pts p := p is on none of the closed edges (on_seg a b p := is_left a b p = 0 /\ (p-a).(p-b) <= 0).
+   wn_poly = true <-> p strictly left of every edge; the count itself is 1 / 0. *)
+Theorem C20_wn_convex_ccw : forall (pts : list (list R)) (p : list R),
+  strictly_convex_ccw pts -> off_boundary_list pts p ->
+  let n := length pts in
+  let inside := forall i, (i < n)%nat -> 0 < is_left Rops (List.nth i pts []) (List.nth (S i mod n) pts []) p in
+  (wn_poly Rops p (closed pts) = true <-> inside) /\
+  (inside -> wn_count Rops p (closed pts) = 1%Z) /\ (~ inside -> wn_count Rops p (closed pts) = 0%Z).
+Proof. exact wn_poly_convex_ccw. Qed.
+Print Assumptions C20_wn_convex_ccw.
+
+(* [G] clockwise: true <-> strictly right of every edge; count -1 / 0 *)
+Theorem C20_wn_convex_cw : forall (pts : list (list R)) (p : list R),
+  strictly_convex_cw pts -> off_boundary_list pts p ->
+  let n := length pts in
+  let inside := forall i, (i < n)%nat -> is_left Rops (List.nth i pts []) (List.nth (S i mod n) pts []) p < 0 in
+  (wn_poly Rops p (closed pts) = true <-> inside) /\
+  (inside -> wn_count Rops p (closed pts) = (-1)%Z) /\ (~ inside -> wn_count Rops p (closed pts) = 0%Z).
+Proof. exact wn_poly_convex_cw. Qed.
+Print Assumptions C20_wn_convex_cw.
+
+(* [G] triangles (what the tessellation trims use): every non-degenerate triangle of either orientation, every point on
+   none of the three closed edges *)
+Theorem C20_wn_triangle : forall a b c p : list R, is_left Rops a b c <> 0 ->
+  ~ on_seg a b p -> ~ on_seg b c p -> ~ on_seg c a p ->
+  (wn_poly Rops p [a; b; c; a] = true <->
+   (0 < is_left Rops a b c /\ 0 < is_left Rops a b p /\ 0 < is_left Rops b c p /\ 0 < is_left Rops c a p) \/
+   (is_left Rops a b c < 0 /\ is_left Rops a b p < 0 /\ is_left Rops b c p < 0 /\ is_left Rops c a p < 0)).
+Proof. exact wn_triangle. Qed.
+Print Assumptions C20_wn_triangle.
+
+(* the hypotheses are satisfiable (a convex quadrilateral that is not axis-parallel; an interior and an exterior point) *)
+Example C20_wn_convex_instance :
+  strictly_convex_ccw exQuad /\ off_boundary_list exQuad [2; 2] /\ off_boundary_list exQuad [5; 1] /\
+  wn_poly Rops [2; 2] (closed exQuad) = true /\ wn_poly Rops [5; 1] (closed exQuad) = false.
+Proof. exact convex_quad_instance. Qed.
+
+(* left turns at consecutive triples are not enough (pentagram): convexity has to be global *)
+Example C20_wn_local_left_turns_insufficient :
+  let n := length exStar in
+  (forall i, (i < n)%nat -> 0 < is_left Rops (List.nth i exStar []) (List.nth (S i mod n) exStar []) (List.nth (S (S i) mod n) exStar [])) /\
+  off_boundary_list exStar [1; 1] /\
+  wn_poly Rops [1; 1] (closed exStar) = true /\
+  ~ (forall i, (i < n)%nat -> 0 < is_left Rops (List.nth i exStar []) (List.nth (S i mod n) exStar []) [1; 1]).
+Proof. exact local_left_turns_insufficient. Qed.
